@@ -993,6 +993,30 @@ theorem iterate_inv (F : FoldOK fold) {s : St} (I : Inv fold s) (look : St → L
     (fun e he => h1.1.known_of_indexed (hl _ h1.1 e (List.mem_filter.mp he).1)) a
   exact ⟨h2.1, h1.2.trans h2.2⟩
 
+theorem assignKeys_inv (F : FoldOK fold) {s : St} (I : Inv fold s) {e : Id} (he : s.known e) (kvs : KVs) :
+    Inv fold (assignKeys Fix.all fold s e kvs).1 := by
+  unfold assignKeys
+  have h1 := clearEnt_inv F I he
+  generalize clearEnt Fix.all fold s e = r at h1
+  obtain ⟨s1, r1⟩ := r
+  cases r1
+  · simp only
+    have h2 := (setKeys_inv F h1.1 (h1.2.known he) kvs).1
+    generalize setKeys Fix.all fold s1 e kvs = r2 at h2
+    obtain ⟨s2, b⟩ := r2
+    cases b <;> exact h2
+  all_goals exact h1.1
+
+theorem delEach_inv (F : FoldOK fold) {s : St} (I : Inv fold s) {e : Id} (he : s.known e) :
+    Inv fold (delEach Fix.all fold s e) := by
+  unfold delEach
+  generalize (s.keysOf e).map (·.1) = ks
+  induction ks generalizing s with
+  | nil => exact I
+  | cons k r ih =>
+    simp only [List.foldl_cons]
+    exact ih (delKey_inv F I he k) ((delKey_Frame s e k Fix.all).known he)
+
 /-- API preconditions of one operation (see ASSUMPTIONS of the check). -/
 def Valid (s : St) : Op → Prop
   | .construct _ => True
@@ -1010,6 +1034,10 @@ def Valid (s : St) : Op → Prop
   | .copy _ => True
   | .iterClass _ _ => True
   | .iterTarget _ _ => True
+  | .setdefault _ _ _ => True
+  | .ior _ _ => True
+  | .assignKeys e _ => s.known e
+  | .delEach e => s.known e
 
 theorem step_inv (F : FoldOK fold) {s : St} (I : Inv fold s) (op : Op) (hv : Valid s op) :
     Inv fold (step Fix.all fold s op).1 := by
@@ -1037,6 +1065,10 @@ theorem step_inv (F : FoldOK fold) {s : St} (I : Inv fold s) (op : Op) (hv : Val
     exact (iterate_inv F I _ (fun t It e he => ((It.coh.1 k e).mp (mem_idxGet.mp he)).1) a).1
   | iterTarget k a =>
     exact (iterate_inv F I _ (fun t It e he => ((It.coh.2 k e).mp (mem_idxGet.mp he)).1) a).1
+  | setdefault e k v => exact I
+  | ior e kvs => exact I
+  | assignKeys e kvs => exact assignKeys_inv F I hv kvs
+  | delEach e => exact delEach_inv F I hv
 
 end C07
 
